@@ -1,0 +1,17 @@
+//go:build verif
+
+package sse
+
+// VerifHook, when set by a verification driver, is called at named points of Joe
+// (see verifAt calls). It is only compiled with the verif build tag.
+var VerifHook func(point string, a, b any)
+
+func verifAt(point string, a, b any) {
+	if h := VerifHook; h != nil {
+		h(point, a, b)
+	}
+}
+
+// VerifSubscriber is the identity of a subscription inside Joe (its done channel),
+// exposed so that drivers can key maps with the values hooks receive.
+type VerifSubscriber = subscriber
